@@ -69,6 +69,11 @@ def _edits(valid):
 def check_case(case, acc, mode='normal'):
     """case: {'s': digit string (payload, may contain separators), 'edits': bool}"""
     from cardutil import card
+    if case.get('vlong'):
+        L, k = case['vlong'], case['pattern']
+        sd = case.get('seed', 0)
+        case = dict(case, s=''.join('0123456789'[(i * (3 + 4 * k) + (i // 7) * k + sd + k) % 10] for i in range(L)),
+                    edits='thin')
     s = case['s']
     digits = [int(c) for c in s if c.isdigit()]
     exp = str(luhn_ref.check_digit(digits))
@@ -108,7 +113,29 @@ def check_case(case, acc, mode='normal'):
     if not _accepted(card.validate_check_digit, full):
         acc.viol('c15.validate.rejects_valid.' + mode, case, 'rejected', 'accepted',
                  'validate_check_digit(add_check_digit(x)) failed')
-    if case.get('edits', True):
+    if case.get('edits', True) == 'thin':
+        # very long numbers: edits at the ends, in the middle and around every multiple of 1000 / power of two / the
+        # interpreter's 4300-digit limit for int<->str conversion
+        L = len(full)
+        marks = {0, 1, 2, L // 2, L - 3, L - 2, L - 1, 4299, 4300, 4301}
+        for bb in list(range(1000, L, 1000 if L <= 20003 else 16000)) + [1 << k for k in range(6, 18)]:
+            marks.update((bb - 1, bb, bb + 1))
+        for i in sorted(m for m in marks if 0 <= m < L):
+            for d in (str((int(full[i]) + 1) % 10), str((int(full[i]) + 5) % 10)):
+                acc.evaluations += 1
+                bad = full[:i] + d + full[i + 1:]
+                if _accepted(card.validate_check_digit, bad):
+                    acc.viol('c15.validate.accepts_invalid.sub.long', dict(case, s=None, length=L, pos=i, digit=d),
+                             'accepted a %d-digit number with digit %d changed' % (L, i), 'rejected')
+                    return
+            if i + 1 < L and full[i] != full[i + 1] and {full[i], full[i + 1]} != {'0', '9'}:
+                acc.evaluations += 1
+                bad = full[:i] + full[i + 1] + full[i] + full[i + 2:]
+                if _accepted(card.validate_check_digit, bad):
+                    acc.viol('c15.validate.accepts_invalid.swap.long', dict(case, s=None, length=L, pos=i),
+                             'accepted a %d-digit number with digits %d,%d swapped' % (L, i, i + 1), 'rejected')
+                    return
+    elif case.get('edits', True):
         for kind, pos, bad in _edits(full):
             acc.evaluations += 1
             if _accepted(card.validate_check_digit, bad):
@@ -157,6 +184,15 @@ def tasks(tier, seed):
                 ts.append({'kind': 'short', 'len': L, 'prefix': '%02d' % p, 'edits': L <= m})
     long_cases = _long_cases(seed)
     for chunk in core.spread(long_cases, 64):
+        ts.append({'kind': 'list', 'cases': chunk})
+    # very long numbers ("every digit string"): lengths around 100, 256, 1000, the 4300-digit int limit, 8000, 8192,
+    # 10000 ... 100001, three digit patterns each
+    vl = []
+    for L in (41, 63, 64, 65, 99, 100, 101, 255, 256, 257, 999, 1000, 1001, 4095, 4096, 4097, 4299, 4300, 4301, 7999,
+              8000, 8001, 8002, 8191, 8192, 8193, 9999, 10000, 10001, 16001, 16002, 20003, 32769, 65537, 100001):
+        for k in range(3):
+            vl.append({'vlong': L, 'pattern': k, 'seed': seed})
+    for chunk in core.spread(vl, 32):
         ts.append({'kind': 'list', 'cases': chunk})
     for part in range(16):
         ts.append({'kind': 'optimised', 'len': 4 if tier == 'quick' else 5, 'seed': seed, 'part': part, 'of': 16})
